@@ -26,6 +26,7 @@ OBJ_FAMS = ['OO', 'OI', 'OL', 'OU', 'OQ']
 def must_see(tier):
     return {'sweep-ghostified:between': 300, 'c:sweep-ghostified:in-call': 100,
             'py:sweep-ghostified:in-call:leaves-only': 100,
+            'c:read-dependency-refused': 30, 'py:read-dependency-refused': 30,
             'c:reload-inside-call': 20, 'pin-checks': 5000,
             'failing-call:TypeError': 20, 'failing-call:KeyError': 20,
             'failing-call:ValueError': 5, 'failing-call:IndexError': 1}
@@ -527,10 +528,39 @@ def run_history(fam, kind, impl, mode, rng, rec, h):
         conn.op_index += 1
         if mode == 'in-call':
             inject.arm(callback=in_call_sweep)
+        # now and then the data manager refuses the first read dependency
+        # the call wants to declare: the call must fail cleanly (nothing
+        # changed, nothing left pinned)
+        refuse = (mode == 'between' and is_tree and op in harness.MUTATING_OPS
+                  and op in harness.SINGLE_KEY_OPS and rng.random() < 0.08)
+        if refuse:
+            conn.fail_read_current = 1
         try:
             ro = do_call(c, op, rargs, None)
         finally:
             inject.disarm()
+            conn.fail_read_current = 0
+        if refuse and ro[0] == 'exc' and ro[1] == 'DMBoom':
+            rec.evaluations += 1
+            rec.ev(impl + ':read-dependency-refused')
+            pin_check(op, args, ro)
+            try:
+                got = harness.contents(c, is_mapping)
+            except Exception as e:
+                fail('contents-raised', op=op, detail='%s: %s' % (
+                    type(e).__name__, e))
+                return
+            if not eq(got, harness.contents(t, is_mapping)):
+                fail('refused-call-changed-contents', op=op,
+                     args=brief(args), observed=brief(got, 300),
+                     expected=brief(harness.contents(t, is_mapping), 300))
+                return
+            errs, _ = hist.structural_checks(c, is_mapping)
+            if errs:
+                fail('tree-damaged', op=op, args=brief(args),
+                     errors=errs[:3], after='refused read dependency')
+                return
+            continue
         to = do_call(t, op, targs, None)
         rec.evaluations += 1
         if state['ghosted']:
